@@ -886,7 +886,7 @@ func runC11(out *Out, r *Rand, tier string, replay []string) {
 	} else {
 		n, maxOps := 1500, 10
 		if tier == "thorough" {
-			n, maxOps = 30000, 18
+			n, maxOps = 20000, 18
 		}
 		for i := 0; i < n; i++ {
 			lines = append(lines, genHistory(r, maxOps))
